@@ -2,7 +2,8 @@
    Property theorems only; models in Corrector.v, proofs in Corrector2.v and Exons.v.
    Model of: ExonCorrector.correct_assigned_read / process_events (src/exon_corrector.py), match_genomic_features
    (src/long_read_profiles.py), IlluminaExonCorrector.correct_exons (src/illumina_exon_corrector.py, with the repair of
-   fixes/C14_illumina_read_span.diff), BEDPrinter.add_read_info (src/assignment_io.py), the preset table of
+   fixes/C14_illumina_read_span.diff; process_events with the repairs of fixes/C01_fuzzy_junction_keeps_exons.diff and
+   fixes/C14_fake_terminal_exon_drops_restored_microintron.diff, the code before them as `_v unrepaired`), BEDPrinter.add_read_info (src/assignment_io.py), the preset table of
    set_splice_correction_options (isoquant.py). *)
 From Coq Require Import ZArith List Bool.
 From IQ Require Import CorrSupport Exons Corrector Corrector2.
@@ -38,6 +39,30 @@ Print Assumptions C14_corrected_exons_wf.
 Theorem C14_events_wf_no_exception : forall fl c, events_wf fl c = true -> exists ex, correct_assigned_read fl c = Ok ex.
 Proof. exact events_wf_returns. Qed.
 Print Assumptions C14_events_wf_no_exception.
+
+(* ---- the repaired fuzzy-junction choice (fixes/C01_fuzzy_junction_keeps_exons.diff) *)
+(* for read introns that are well-formed, a base apart and strictly inside the read region, ANY potential introns and ANY answers of
+   get_error_count: one corrected intron per (read intron, potential) pair, well-formed, a base apart (the exons between them are
+   non-empty), strictly inside the read region, each ending before the next read intron *)
+Theorem C14_fuzzy_wf : forall region reads pots orc, sdg_b reads = true -> forallb (inside region) reads = true ->
+  let cs := fuzzy region None reads pots orc in
+  length cs = Nat.min (length reads) (length pots) /\ sdg_b cs = true /\ forallb (inside region) cs = true /\
+  (forall k c r', nth_error cs k = Some c -> nth_error reads (Datatypes.S k) = Some r' -> snd c + 1 < fst r').
+Proof. exact fuzzy_wf. Qed.
+Print Assumptions C14_fuzzy_wf.
+
+(* with the repaired choice events_wf is a theorem whenever no event carries a read region (the event map is empty): no hypothesis on
+   the annotation, delta, the isoform or get_error_count *)
+Theorem C14_events_wf_no_events : forall vr fl c, v_fuzzy vr = true -> sdg_b (c_exons c) = true -> c_exons c <> [] ->
+  Forall (fun e => e_read e = (undefined_position, undefined_position)) (c_events c) -> events_wf_v vr fl c = true.
+Proof. exact events_wf_no_events. Qed.
+Print Assumptions C14_events_wf_no_events.
+
+Theorem C14_corrected_exons_wf_no_events : forall vr fl c, v_fuzzy vr = true -> sdg_b (c_exons c) = true -> c_exons c <> [] ->
+  Forall (fun e => e_read e = (undefined_position, undefined_position)) (c_events c) ->
+  exists ex, correct_assigned_read_v vr fl c = Ok ex /\ sd ex.
+Proof. exact corrected_exons_wf_no_events. Qed.
+Print Assumptions C14_corrected_exons_wf_no_events.
 
 (* ---- ends *)
 Theorem C14_ends_preserved_unless_terminal_flag : forall fl c ex, regions_ordered (c_events c) = true -> c_exons c <> [] ->
@@ -92,13 +117,69 @@ Example C14_illumina_unrepaired_refuted :
   illumina_correct_exons [(90,120);(130,199)] [(100,110);(200,300)] = [(100,110);(200,300)].
 Proof. vm_compute. repeat split. Qed.
 
-(* events_wf cannot be dropped: a fake_terminal_exon_left event on the second intron makes the faithful model (and the code) emit an inverted exon *)
-Definition bad_input := mkcin [(100,200);(300,400);(500,600)] false true [mkev MES_fake_terminal_exon_left (1073741823,1073741823) (1,1)]
+(* events_wf cannot be dropped: a fake_terminal_exon_right event on the first intron makes the faithful model (and the code,
+   before and after the repairs) emit an inverted exon *)
+Definition bad_input_right := mkcin [(100,200);(300,400);(500,600)] false true [mkev MES_fake_terminal_exon_right (1073741823,1073741823) (0,0)]
                               [] (100,600) [(201,299);(401,499)] [] 6.
 Example C14_corrected_exons_wf_without_hypothesis_refuted :
-  events_wf (strategy_flags St_all) bad_input = false /\
-  correct_assigned_read (strategy_flags St_all) bad_input = Ok [(500,200);(300,600)].
-Proof. vm_compute. split; reflexivity. Qed.
+  events_wf (strategy_flags St_all) bad_input_right = false /\
+  correct_assigned_read (strategy_flags St_all) bad_input_right = Ok [(100,400);(500,200)] /\
+  correct_assigned_read_unrepaired (strategy_flags St_all) bad_input_right = Ok [(100,400);(500,200)].
+Proof. vm_compute. repeat split; reflexivity. Qed.
+(* the mirror image, a fake_terminal_exon_left event on the second intron: the code before
+   fixes/C14_fake_terminal_exon_drops_restored_microintron.diff keeps the intron appended before the event and emits an inverted exon;
+   the repaired code discards it with the fake exon *)
+Definition bad_input := mkcin [(100,200);(300,400);(500,600)] false true [mkev MES_fake_terminal_exon_left (1073741823,1073741823) (1,1)]
+                              [] (100,600) [(201,299);(401,499)] [] 6.
+Example C14_fake_terminal_left_second_intron :
+  events_wf_v unrepaired (strategy_flags St_all) bad_input = false /\
+  correct_assigned_read_unrepaired (strategy_flags St_all) bad_input = Ok [(500,200);(300,600)] /\
+  events_wf (strategy_flags St_all) bad_input = true /\
+  correct_assigned_read (strategy_flags St_all) bad_input = Ok [(500,600)].
+Proof. vm_compute. repeat split; reflexivity. Qed.
+
+(* ---- the two defects of process_events: the code before the repairs refuted, the repaired code on the same inputs *)
+(* fixes/C01_fuzzy_junction_keeps_exons.diff. The annotated intron (1101,1305) within delta of the read intron (1101,1299) ends beyond
+   the read's last exon (1300,1304); one indel next to the right site makes the code take the reference end: inverted last exon.
+   No event carries a read region, so events_wf_no_events applies to the repaired code. *)
+Example C14_fuzzy_junction_unrepaired_refuted :
+  correct_assigned_read_unrepaired (strategy_flags St_default_ont) fuzzy_end_input = Ok [(1000,1100);(1306,1304)] /\
+  events_wf_v unrepaired (strategy_flags St_default_ont) fuzzy_end_input = false /\
+  correct_assigned_read (strategy_flags St_default_ont) fuzzy_end_input = Ok [(1000,1100);(1300,1304)].
+Proof. exact events_wf_no_events_unrepaired_refuted. Qed.
+Example C14_fuzzy_unrepaired_inverted_refuted :
+  fuzzy_unrepaired [(1101,1299)] [(1101,1305)] [((0,0),(1,0))] = [(1101,1305)] /\
+  fuzzy (1000,1304) None [(1101,1299)] [(1101,1305)] [((0,0),(1,0))] = [(1101,1299)].
+Proof. exact fuzzy_unrepaired_inverted_refuted. Qed.
+
+(* the read intron (2370,2374) is matched to the short annotated intron (2376,2380); an indel next to its left site makes the code
+   take the reference start 2376 but keep the read's end 2374: the intron is inverted and the two exons around it overlap in base 2375 *)
+Definition short_intron_input := mkcin [(1301,1650);(1853,1871);(1883,1888);(2134,2369);(2375,2469);(4434,4489)] false true
+  [mkev MES_fsm (undefined_position,undefined_position) (undefined_position,undefined_position)]
+  [(1651,1852);(1872,1882);(1889,2133);(2376,2380);(2376,4433);(2470,4433)] (1301,4489)
+  [(1651,1852);(1872,1882);(1889,2133);(2376,2380);(2376,4433);(2470,4433)]
+  [((0,0),(0,0));((0,0),(0,0));((0,0),(0,0));((1,0),(0,0));((0,0),(0,0))] 6.
+Example C14_short_intron_unrepaired_refuted :
+  correct_assigned_read_unrepaired (strategy_flags St_default_pacbio) short_intron_input =
+    Ok [(1301,1650);(1853,1871);(1883,1888);(2134,2375);(2375,2469);(4434,4489)] /\
+  events_wf_v unrepaired (strategy_flags St_default_pacbio) short_intron_input = false /\
+  correct_assigned_read (strategy_flags St_default_pacbio) short_intron_input =
+    Ok [(1301,1650);(1853,1871);(1883,1888);(2134,2369);(2375,2469);(4434,4489)] /\
+  correct_assigned_read (strategy_flags St_default_pacbio) short_intron_input = Ok (c_exons short_intron_input).
+Proof. vm_compute. repeat split; reflexivity. Qed.
+
+(* fixes/C14_fake_terminal_exon_drops_restored_microintron.diff. A retained micro-intron (110,120) of the isoform lies inside the
+   fake first exon (100,130): the code restores it and then skips the exon, so the new start 301 lies after the restored intron *)
+Definition fake_micro_input := mkcin [(100,130);(301,400)] false true
+  [mkev MES_fake_micro_intron_retention (0,0) (absent_position,0); mkev MES_fake_terminal_exon_left (1073741823,1073741823) (0,0)]
+  [(110,120)] (50,600) [(110,120)] [((0,0),(0,0))] 6.
+Example C14_fake_terminal_microintron_unrepaired_refuted :
+  regions_ordered (c_events fake_micro_input) = true /\
+  correct_assigned_read_unrepaired (strategy_flags St_default_ont) fake_micro_input = Ok [(301,109);(121,400)] /\
+  events_wf_v unrepaired (strategy_flags St_default_ont) fake_micro_input = false /\
+  correct_assigned_read (strategy_flags St_default_ont) fake_micro_input = Ok [(301,400)] /\
+  events_wf (strategy_flags St_default_ont) fake_micro_input = true.
+Proof. vm_compute. repeat split; reflexivity. Qed.
 
 (* the hypotheses are satisfiable on a non-trivial input (a read of the bundled data set: retained micro intron restored, default_ont) *)
 Definition bundled_read := mkcin [(3000923,3001444);(3001972,3002096)] false true
